@@ -545,8 +545,8 @@ def r6(ctx, r):
         r.fail(ra, None, "data callback sites", "readAvail invokes the data callback at %d sites, expected exactly one per iteration" % len(invs))
         return
     inv = invs[0][0]
-    txt = show(inv.node).replace(" ", "")
-    r.expect("buf.data()" in txt and ("(unsignedlong)%s" % nv in txt or ",%s}" % nv in txt or ",%s)" % nv in txt), ra, inv, "callback payload",
+    bv = common.bufferview_args(inv.node)
+    r.expect(bv == ["buf.data()", nv], ra, inv, "callback payload",
              "the data callback is not given (buf.data(), %s) of the read that just returned: %s" % (nv, show(inv.node)[:120]), okdesc="onData(buf.data(), n)")
     vocab = Vocab(["npos", "cb"])
 
